@@ -71,7 +71,7 @@ class Oracle:
         # property-served attributes: fill the cache first (a read); a cache entry that appears during the judged call is
         # then not mistaken for a change of the receiver (C01 treats such an entry as neutral, DESIGN 3.5)
         for a in ctx.rec["attrs"]:
-            if a.get("prop") == "cached":
+            if a.get("prop") in ("cached", "stored"):  # (stored: the getter creates the private store on first read)
                 for o in ctx.world.objs:
                     G.CB.suspended = True
                     try:
